@@ -607,4 +607,70 @@ theorem quiescent_of_returned (s : State) (hw : s.watch = .returned)
   | wPoll | wRead | wLookup | wDeliver | wOffer | wOfferCancel | wNack | wExit => simp [step, hw]
   | _ => simp [Label.internal] at hl
 
+/-- the C05 environment as a state predicate: connection live, transport open, nothing fatal queued, application draining, no
+Close call anywhere -/
+def Calm (s : State) : Prop :=
+  s.connDone = false ∧ s.readSide = .open ∧ InFrame.fatal ∉ s.inbound ∧ s.watch ≠ .exiting ∧ s.watch ≠ .returned ∧
+  s.draining = true ∧ ∀ j, (s.callers j).kind ≠ .close ∧ (∀ r, (s.callers j).pc ≠ .closing r) ∧ (∀ r, (s.callers j).pc ≠ .cancelling r)
+
+set_option maxHeartbeats 4000000 in
+theorem calm_step (s s' : State) (l : Label) (hc : Calm s) (hl : l.internal = true) (hs : Step s l s') : Calm s' := by
+  obtain ⟨h1, h2, h3, h4, h5, h6, h7⟩ := hc
+  cases hs <;> first
+    | (simp [Label.internal] at hl; done)
+    | (refine ⟨?_, ?_, ?_, ?_, ?_, ?_, ?_⟩ <;> (try simp only [setPc]) <;> grind [upd, updI])
+
+set_option maxHeartbeats 2000000 in
+theorem flags_step (s s' : State) (l : Label) (i : Nat) (hl : l.internal = true) (hs : Step s l s') :
+    (s'.callers i).answered = (s.callers i).answered ∧ (s'.callers i).ownDone = (s.callers i).ownDone := by
+  cases hs <;> first
+    | (simp [Label.internal] at hl; done)
+    | (constructor <;> (try simp only [setPc]) <;> grind [upd, updI])
+
+/-- **Completion is always within reach, by goroutine steps alone.**  From every reachable calm state in which the peer has
+sent the answer to Submit call `i` and `i`'s context is live, some finite sequence of goroutine steps — no further event from the
+peer, the application or a timer — ends with `i` having returned exactly its own response.  (With `internal_run_bound`: every
+sequence of goroutine steps is finite, and by `answered_returns` every maximal one ends there.) -/
+theorem completion_reachable (tbl) (hd : Distinct tbl) (hf : Fresh tbl) (n : Nat) (i : Nat) (hkind : (tbl i).kind = .submit) :
+    ∀ (m : Nat) (s : State), mu n s = m → ReachP tbl s → Bounded n s → Calm s → (s.callers i).answered = true →
+      (s.callers i).ownDone = false →
+      ∃ ls s', (∀ l ∈ ls, l.internal = true) ∧ run s ls = some s' ∧ (s'.callers i).pc = .done (.resp (answerOf tbl i)) := by
+  intro m
+  induction m using Nat.strongRecOn with
+  | _ m ih =>
+    intro s hm hr hb hc hans hown
+    by_cases hq : Quiescent s
+    · exact ⟨[], s, by simp, rfl, answered_returns tbl hd hf s hr hq i hkind hans hc.1 hown hc.2.2.2.2.2.1⟩
+    · -- some goroutine step is enabled: take it
+      unfold Quiescent at hq
+      have : ∃ l : Label, l.internal = true ∧ step s l ≠ none := by
+        apply Classical.byContradiction
+        intro hne
+        apply hq
+        intro l hl
+        apply Classical.byContradiction
+        intro hs
+        exact hne ⟨l, hl, hs⟩
+      obtain ⟨l, hl, hstep⟩ := this
+      cases hs1 : step s l with
+      | none => exact absurd hs1 hstep
+      | some s1 =>
+        have hS := step_sound s s1 l hs1
+        obtain ⟨_, _, h3, _⟩ := inv_all tbl hd hf s hr.reach
+        have hdec := mu_decreases n s s1 l h3.qClosed hb hl hS
+        have hr1 : ReachP tbl s1 := ReachP.step l hr (internal_admissibleP tbl l hl) hs1
+        have hb1 := bounded_step n s s1 l hb hl hS
+        have hc1 := calm_step s s1 l hc hl hS
+        obtain ⟨ha, ho⟩ := flags_step s s1 l i hl hS
+        obtain ⟨ls, s', hall, hrun, hdone⟩ :=
+          ih (mu n s1) (by omega) s1 rfl hr1 hb1 hc1 (by rw [ha]; exact hans) (by rw [ho]; exact hown)
+        refine ⟨l :: ls, s', ?_, ?_, hdone⟩
+        · intro x hx
+          simp only [List.mem_cons] at hx
+          rcases hx with rfl | hx
+          · exact hl
+          · exact hall x hx
+        · simp only [run, hs1]
+          exact hrun
+
 end Smpp.Conn
